@@ -19,7 +19,11 @@ RULE = ("each run: generated well-formed input, one size or value fault (biased 
 REAL = common.REAL_DECODER
 ASSUMPTIONS = ["consumed offending bytes: the bad field for a value error; the rest of the overrun region for an "
                "exceeded error; none for anticipated / subceeded errors (DESIGN.md C13)"]
-TIERS = {"quick": {"runs": 80000, "budget": 75}, "thorough": {"runs": 1000000, "budget": 780}}
+TIERS = {"quick": {"runs": 40000, "budget": 75}, "thorough": {"runs": 1000000, "budget": 780}}
+
+
+def enumerate_all(tier, rng):
+    return tier == "thorough" and rng.random() < 0.5 or rng.random() < 0.01
 
 
 def make_case(i, rng, tier):
@@ -31,6 +35,24 @@ def make_case(i, rng, tier):
     o = model.decode(inp["root"], inp["data"], cc=inp["cc"], enc=inp["enc"])
     if not o.ok:
         raise HarnessError("generator produced a malformed input: %s %s" % (inp["label"], o.problem))
+    if enumerate_all(tier, rng) and len(o.sizefields) <= 30:
+        vs = []
+        cands = []
+        for idx, _r in o.sizefields:
+            for val in F.size_variants(o, idx, rng)[:8]:
+                cands.append(F.fault_size(inp["data"], o, rng, idx=idx, value=val))
+        for idx in F.constrained_leaves(o)[-12:]:
+            cands.append(F.fault_value(inp["data"], o, rng, idx=idx))
+        for f in cands:
+            if not f:
+                continue
+            vs.append((f[0], [f[1]]))
+            o2 = model.decode(inp["root"], f[0], cc=inp["cc"], enc=inp["enc"])
+            for a in (o2.problem or []):
+                if "rem_off" in a and a["rem_off"] < len(f[0]):
+                    vs.append((f[0][:a["rem_off"]], [f[1], dict(kind="trunc", at=a["rem_off"], off=a["rem_off"], cls="at-problem", depth=0, regions=[])]))
+        if vs:
+            return common.with_variants(common.mk_case(rng, inp, inp["data"], []), vs[:400])
     data = inp["data"]
     r = rng.random()
     f = None
@@ -68,7 +90,7 @@ def make_case(i, rng, tier):
     return common.mk_case(rng, inp, data, recs)
 
 
-def check(case):
+def check_one(case):
     res = Result()
     w = common.run_world(case, res)
     t, data, o = common.main_ref(case, w)
@@ -102,6 +124,15 @@ def check(case):
     return res
 
 
+def check(case):
+    if "variants" in case:
+        return common.check_variants(case, check_one)
+    return check_one(case)
+
+
 def shrink(case):
+    if "variants" in case:
+        yield from common.shrink_variants(case)
+        return
     yield from common.shrink_faults(case, ("main",))
     yield from common.shrink_tasks(case, {"main"})
